@@ -24,7 +24,7 @@ RULE = (
 )
 ASSUMPTIONS = [
     "controller = repo Executor with a strict harness subclass (every quantum instruction resolves its virtual id through the unit module)",
-    "the scripted network stack answers each request when the program waits, taking physical ids from the executor's allocator",
+    "the scripted network stack answers each request either when the program waits (lazy) or as early as the response can exist (eager), taking physical ids from the executor's allocator",
     "SDK argument checks (ValueError) are rejections, not violations",
 ]
 SHARDS = {"quick": 4, "thorough": 16}
@@ -58,6 +58,8 @@ class HistoryRunner:
         self.ctrl, self.conn = sim.fresh(sim.TraceExecutor, flavour=flavour, network_stack_cls=net.ScriptedNetworkStack, epr_sockets=[self.sock], **kw)
         self.ex = self.ctrl._executor
         self.stack = self.ctrl.network_stack
+        if config.get("delivery") == "eager":
+            self.ex.between_hook = self.stack.deliver_eagerly
         self.handles: List[Any] = []
         self.dead: List[Any] = []
         self.history: List[Any] = []
@@ -199,11 +201,11 @@ def make_machine(ctx: Ctx, stt):
             super().__init__()
             self.r = None
 
-        @initialize(budget=st.integers(1, 5), hardware=st.sampled_from(["generic", "nv"]), compiler=st.sampled_from(["none", "none", "nv"]))
-        def setup(self, budget, hardware, compiler):
+        @initialize(budget=st.integers(1, 5), hardware=st.sampled_from(["generic", "nv"]), compiler=st.sampled_from(["none", "none", "nv"]), delivery=st.sampled_from(["lazy", "eager"]))
+        def setup(self, budget, hardware, compiler, delivery):
             if compiler == "nv":
                 hardware = "nv"
-            self.r = HistoryRunner({"budget": budget, "hardware": hardware, "compiler": compiler})
+            self.r = HistoryRunner({"budget": budget, "hardware": hardware, "compiler": compiler, "delivery": delivery})
 
         @precondition(lambda self: self.r is not None and self.r.room() >= 1)
         @rule()
@@ -271,7 +273,7 @@ def make_machine(ctx: Ctx, stt):
                 info = r.info
                 nt = info["reuse"] or info["relocation"] or info["epr_with_other"]
                 c = r.config
-                labels = [f"budget:{c['budget']}", c["hardware"], "compiler:" + c["compiler"]] + [k for k in ("reuse", "relocation", "epr_with_other") if info[k]]
+                labels = [f"budget:{c['budget']}", c["hardware"], "compiler:" + c["compiler"], "delivery:" + c.get("delivery", "lazy")] + [k for k in ("reuse", "relocation", "epr_with_other") if info[k]]
                 labels += sorted({"op:" + op[0] for op in r.history})
                 stt.case(r.case(), nt, labels, sample=r.case() if len(r.history) <= 12 else None)
 
